@@ -30,6 +30,8 @@ def configs(tier):
                 for w in (False, True):
                     for same in (False, True):
                         out.append(dict(kind="frame", past=past, delay2=delay2, ncol=ncol, w=w, same=same, via="build_ts_X_y"))
+            for same in (False, True):
+                out.append(dict(kind="frame", past=past, delay2=delay2, ncol=0, w=False, same=same, via="build_ts_X_y", reused=True))
             # the caller used by the regressors (same_rows=True)
             for ncol in (0, 2):
                 out.append(dict(kind="frame", past=past, delay2=delay2, ncol=ncol, w=True, same=True, via="_base_fit_predict"))
@@ -39,7 +41,14 @@ def configs(tier):
 def _call(cfg, X, y, w):
     utils = loader.load("timeseries.utils")
     base = loader.load("timeseries.base")
-    model = base.BaseTimeSeries(past=cfg["past"], delay1=1, delay2=cfg["delay2"], use_all_past=False)
+    if cfg.get("reused"):
+        # history: the same model object framed another series with another window before (set_params in between)
+        past0 = 1 if cfg["past"] != 1 else 3
+        model = base.BaseTimeSeries(past=past0, delay1=1, delay2=cfg["delay2"], use_all_past=False)
+        utils.build_ts_X_y(model, None, numpy.arange(30.0), None, same_rows=cfg["same"])
+        model.set_params(past=cfg["past"])
+    else:
+        model = base.BaseTimeSeries(past=cfg["past"], delay1=1, delay2=cfg["delay2"], use_all_past=False)
     if cfg["via"] == "build_ts_X_y":
         return utils.build_ts_X_y(model, X, y, w, same_rows=cfg["same"])
     return model._base_fit_predict(X, y, w)
